@@ -5,6 +5,7 @@ import ast
 from sa.helpers import (the_return, mkflow, spec, code, one, calls, bind_call, param_env,
                         fmt, atom_of, unparse, walk_no_nested, unalloc, call_kw,
                         inline_local)
+from sa.helpers import guard_is
 from sa.index import AnalysisError, ClassInfo
 from sa.algebra import RF, Slice, Conv
 from sa.api import api_obligations
@@ -33,10 +34,19 @@ def gen_conditions(f):
     """[(any-call generator elt ast, range ast)] of `if any(<genexp>)` tests
     with the raise that follows."""
     out = []
+    single = {}
+    cnt = {}
     for n in walk_no_nested(f.node):
-        if isinstance(n, ast.If) and isinstance(n.test, ast.Call) and unparse(n.test.func) == 'any' \
-                and n.test.args and isinstance(n.test.args[0], ast.GeneratorExp):
-            ge = n.test.args[0]
+        if isinstance(n, ast.Assign) and len(n.targets) == 1 and isinstance(n.targets[0], ast.Name):
+            single[n.targets[0].id] = n.value
+            cnt[n.targets[0].id] = cnt.get(n.targets[0].id, 0) + 1
+    for n in walk_no_nested(f.node):
+        test = n.test if isinstance(n, ast.If) else None
+        if isinstance(test, ast.Name) and cnt.get(test.id) == 1:
+            test = single[test.id]              # the test kept in a local
+        if isinstance(n, ast.If) and isinstance(test, ast.Call) and unparse(test.func) == 'any' \
+                and test.args and isinstance(test.args[0], ast.GeneratorExp):
+            ge = test.args[0]
             rs = [s for s in n.body if isinstance(s, ast.Raise)]
             out.append((n.lineno, ge, rs))
     out.sort(key=lambda x: x[0])
@@ -124,14 +134,18 @@ def _run(ix, R):
                 'unconditionally before any value is returned',
                 not why, key='; '.join(why), detail='; '.join(why), loc=f.loc(cp.node))
         # 3. constant shortcut and interpolation form
-        const = [r for r in rets if r.guards and any('np.all' in g.text() for g in r.guards if g.positive)]
+        allT = spec(fl, 'all(T == T[0])', {'T': Tn})
+        const = [r for r in rets if r.guards and any(g.rf is not None and g.positive and fl.tab.equal(g.rf, allT)
+                                                     for g in r.guards)]
         c = one(const, 'all-equal return')
         okc = fl.tab.equal(c.value, spec(fl, 'ones_like(self.pressure_profile)*T[0]', {'T': Tn})) and \
             fl.tab.equal(c.guards[-1].rf, spec(fl, 'all(T == T[0])', {'T': Tn}))
         R.check('3.npoint.const', 'ALG', site, 'all nodes equal -> ones_like(pressure_profile) * T_node',
                 okc, key=fmt(fl, c.value), detail='%s under %s' % (fmt(fl, c.value), c.guards[-1].text()), loc=f.loc(c.node))
-        tp = [e for e in fl.of('assign') if e.name == 'TP']
-        t = one(tp, 'TP')
+        # the interpolated profile: the assignment whose value is an np.interp of the node arrays (any name)
+        tp = [e for e in fl.of('assign') if isinstance(e.value, RF) and atom_of(fl, e.value) is not None and
+              atom_of(fl, e.value).head == 'call' and atom_of(fl, e.value).extra[0] == 'fn:interp']
+        t = one(tp, 'interpolated profile')
         want = spec(fl, 'interp(log10(self.pressure_profile[::-1]), log10(Pn[::-1]), Tn[::-1])', {'Pn': cp.args[0], 'Tn': Tn})
         R.check('3.npoint.interp', 'ALG', site,
                 'profile = interpolation of the temperature nodes in log10 pressure (ascending order for np.interp)',
@@ -177,7 +191,10 @@ def _run(ix, R):
         cv = one(cvs, '_check_values call')
         r = the_return(fl)
         okd = not cv.guards and not cv.loops
-        divs = [e for e in fl.of('assign') if e.name in ('gamma_1', 'gamma_2', 'tau')]
+        divs = [e for e in fl.of('assign') if isinstance(e.value, RF) and any(
+            fl.tab.equal(e.value, spec(fl, x)) for x in (
+                'self.kappa_v1/self.kappa_ir', 'self.kappa_v2/self.kappa_ir',
+                'self.kappa_ir*self.pressure_profile/self.planet.gravity'))]
         okd = okd and all(fl.events.index(cv) < fl.events.index(e) for e in divs)
         R.check('1.guillot.dom', 'DOM', site, '_check_values() runs unconditionally before gamma / tau are formed',
                 okd, key='order', detail='check is late or conditional', loc=f.loc(cv.node))
@@ -295,7 +312,8 @@ def _run(ix, R):
                     if fl.tab.equal(rs.new, v):
                         v = rs.old
                 if fl.tab.equal(v, code(fl, 'self._tp_profile')) and any(
-                        'shape[0] == self.nlayers' in g.text() and g.positive for g in r.guards):
+                        g.rf is not None and guard_is(fl, g, spec(fl, 'self._tp_profile.shape[0] == self.nlayers'), True)
+                        for g in r.guards):
                     continue
                 if fmt(fl, v).startswith('self._func('):
                     v = atom_of(fl, v).args[0]
@@ -306,7 +324,7 @@ def _run(ix, R):
                     # a definition under an explicit `len(x) == len(y)` test has the tested length
                     evs = {id(e.node): e for e in fl.of('assign')}
                     defs = [d for d in defs if not any(
-                        g.positive and 'len(' in g.text() and '==' in g.text()
+                        g.positive and g.rf is not None and 'len(' in fl.tab.fmt(g.rf) and '==' in fl.tab.fmt(g.rf)
                         for g in evs[id(d[0])].guards)]
                     ls = {length(fl, d[1], N, arrays) for d in defs}
                     L = 'N' if ls == {'N'} else str(ls)
